@@ -327,6 +327,30 @@ async fn run_ws(c: &Case) -> (Outcome, Vec<(String, String)>) {
 		}
 	}
 	tokio::time::sleep(Duration::from_millis(1)).await;
+	// in one case out of four an earlier batch was given up by its caller (future dropped) before the server answered it;
+	// its answer arrives late - after the batch under test was issued - and concerns nobody any more
+	let mut abandoned_reply: Option<String> = None;
+	if (c.seed >> 7) % 4 == 0 {
+		let cl = client.clone();
+		let t = tokio::spawn(async move {
+			let mut bb = BatchRequestBuilder::new();
+			for j in 0..2 {
+				bb.insert("call", rpc_params![format!("A{j}")]).unwrap();
+			}
+			let _: Result<BatchResponse<Value>, _> = cl.batch_request(bb).await;
+		});
+		for (_, m) in srv.collect_until_idle(Duration::from_millis(5)).await {
+			if let WireMsg::Batch(reqs) = m {
+				if reqs.iter().any(|q| q.tag.as_deref().is_some_and(|t| t.starts_with('A'))) {
+					let parts: Vec<String> = reqs.iter().map(|q| ok_response(q.id.as_ref().unwrap_or(&Value::Null), json!({"tag": q.tag, "n": 0}))).collect();
+					abandoned_reply = Some(array_of(&parts));
+				}
+			}
+		}
+		t.abort();
+		let _ = t.await;
+		tokio::time::sleep(Duration::from_millis(1)).await;
+	}
 	let cl = client.clone();
 	let n = c.n;
 	let test = tokio::spawn(async move {
@@ -350,6 +374,27 @@ async fn run_ws(c: &Case) -> (Outcome, Vec<(String, String)>) {
 		}
 	}
 	let (reply, answered) = craft_reply(c, &test_entries, &mut r);
+	if let Some(late) = abandoned_reply.take() {
+		srv.push_text(late);
+		tokio::time::sleep(Duration::from_millis(1)).await;
+	}
+	// in one case out of three notifications ride in the same array as the answers (a plain one, one for a subscription
+	// nobody has): they concern other consumers and change nothing for the batch
+	let reply = if (c.seed >> 11) % 3 == 0 {
+		match serde_json::from_str::<Vec<Box<serde_json::value::RawValue>>>(&reply) {
+			Ok(mut parts) => {
+				let noise = [plain_notif("some_method", json!(["in-array"])), sub_notif("m", &json!("nobody-has-this-subscription"), json!(1))];
+				for k in 0..1 + r.usize(2) {
+					let at = r.usize(parts.len() + 1);
+					parts.insert(at, serde_json::value::RawValue::from_string(noise[k % 2].clone()).expect("json"));
+				}
+				format!("[{}]", parts.iter().map(|p| p.get().to_string()).collect::<Vec<_>>().join(","))
+			}
+			Err(_) => reply,
+		}
+	} else {
+		reply
+	};
 	srv.push_text(reply.clone());
 	let result = match tokio::time::timeout(Duration::from_secs(90), test).await {
 		Ok(Ok(r)) => r,
@@ -620,6 +665,12 @@ fn run_cases(cases: Vec<Case>, ws: bool, http: bool) -> (Evidence, Vec<Violation
 			vs.extend(extra);
 			ev.eval();
 			ev.count("ws_batches", 1);
+			if (c.seed >> 7) % 4 == 0 {
+				ev.count("ws_cases_with_an_abandoned_earlier_batch_answered_late", 1);
+			}
+			if (c.seed >> 11) % 3 == 0 {
+				ev.count("ws_replies_with_notifications_in_the_array", 1);
+			}
 			ev.count(&format!("defect_{}", c.defect.class()), 1);
 			if o.result.is_ok() {
 				ev.count("ws_returned_ok", 1);
